@@ -37,7 +37,9 @@ from pywbem import (CIMInstanceName, CIMClassName, CIMInstance, CIMClass,
 from pywbem._nocasedict import NocaseDict
 from pywbem._vendor.nocasedict import NocaseDict as BaseNocaseDict
 
+import pywbem
 from vf import cimgen
+from vf import equiv
 from vf.equiv import rebuild, Equiv, IDENT, has_nan, CIM_OBJECTS
 from vf.fingerprint import fp, diff
 from vf.reach import Reach
@@ -745,7 +747,65 @@ def build_pool(ctx, rng, kind, a):
         pool.append(('mutant', lab, m))
         n += 1
     pool.append(('free', 'unrelated', gen_base(rng, kind)))
+    # the same key values in another python representation (datetime <-> its
+    # string, integer <-> its decimal string, boolean <-> integer): whether
+    # such objects are equal is not stated, but the laws (symmetry,
+    # transitivity, equal => same hash, != is the negation) must hold for
+    # them as for any objects of the same kind
+    try:
+        r1 = rebuild(a, Retype(rng))
+        if FP(r1) != fa:
+            pool.append(('free', 'retyped-keyvalues', r1))
+            r2 = rebuild(r1, Retype(rng))
+            if FP(r2) != FP(r1) and FP(r2) != fa:
+                pool.append(('free', 'retyped-keyvalues-2', r2))
+    except (TypeError, ValueError):
+        ctx.outcome('retype-not-constructible')
     return pool
+
+
+class Retype(equiv.Xform):
+    """Keybinding values in another python representation of the 'same'
+    value."""
+
+    def __init__(self, rng):
+        self.rng = rng
+
+    def keyvalue(self, v):
+        rng = self.rng
+        if rng.random() < 0.3:
+            return v
+        if isinstance(v, pywbem.CIMDateTime):
+            r = rng.random()
+            if r < 0.6:
+                return str(v)
+            if v.is_interval:
+                return v.timedelta if r < 0.8 else pywbem.CIMDateTime(str(v))
+            # the same point in time with another UTC offset
+            try:
+                off = rng.choice([0, 60, -300, 120])
+                return pywbem.CIMDateTime(v.datetime.astimezone(
+                    pywbem.MinutesFromUTC(off)))
+            except (ValueError, OverflowError):
+                return str(v)
+        if isinstance(v, bool):
+            return int(v) if rng.random() < 0.5 else ('TRUE' if v else
+                                                      'FALSE')
+        if isinstance(v, (int, pywbem.CIMInt)):
+            return str(int(v)) if rng.random() < 0.6 else float(int(v)) \
+                if abs(int(v)) < 2 ** 53 else str(int(v))
+        if isinstance(v, (float, pywbem.CIMFloat)):
+            return repr(float(v))
+        if isinstance(v, str):
+            try:
+                return pywbem.CIMDateTime(str(v))
+            except ValueError:
+                pass
+            try:
+                return int(str(v))
+            except ValueError:
+                return v
+        return v
 
 
 def check_matrix(ctx, kind, pool, detail):
